@@ -548,6 +548,11 @@ def run_extra(prop, what, n, seed):
         cases = xz_mem.cases(rng, n)
         modname, jname = "xz_mem", "judge_mem"
         globals()["judge_mem"] = xz_mem.judge_mem
+    elif what == "flush":
+        import xz_flush
+        cases = xz_flush.cases(rng, n)
+        modname, jname = "xz_flush", "judge_flush"
+        globals()["judge_flush"] = xz_flush.judge_flush
     else:
         import xz_list
         cases = xz_list.cases(rng, n)
